@@ -308,3 +308,17 @@ def check(ctx):
     from .walkers import restart_walker
     delivery_loop(ctx, "R06-f")
     restart_walker(ctx, "R06-f")
+
+    # ---- R06-g one clock: deadlines are armed with `loop.call_at` against `loop.time()`, so what the timeout helpers and
+    # anyio.current_time() read must be that same event-loop clock (a loop with its own time base - virtual time, a loop factory -
+    # would otherwise fire every helper-made deadline at the wrong moment)
+    ct = ctx.fn("AsyncIOBackend.current_time", A)
+    rets_ = [n_ for n_ in own_walk(ct.node) if isinstance(n_, ast.Return)]
+    okc = bool(rets_) and all(r_.value is not None and ast.unparse(r_.value) in ("get_running_loop().time()", "asyncio.get_running_loop().time()") for r_ in rets_)
+    ctx.ob("R06-g", ct, "the backend's current_time() is the running event loop's clock", okc, node=rets_[0] if rets_ else None,
+           detail="" if okc else "AsyncIOBackend.current_time does not `return get_running_loop().time()`", by=("get_running_loop().time()",))
+    tnow = ctx.sites(timeout, "$L.time()")
+    arm_ = ctx.sites(timeout, "self._timeout_handle = $L.call_at($T, $CB)")
+    oks = bool(tnow) and bool(arm_) and all(u(e_["L"]) == u(arm_[0][1]["L"]) for _, e_ in tnow) and bool(ctx.sites(timeout, f"{u(arm_[0][1]['L'])} = get_running_loop()"))
+    ctx.ob("R06-g", timeout, "the deadline is compared with and armed on the clock of the running loop", oks,
+           detail="" if oks else "CancelScope._timeout does not use one `loop = get_running_loop()` for both `loop.time()` and `loop.call_at`", by=("loop.time() / loop.call_at",))
